@@ -7,7 +7,7 @@ LEVEL = "proof"
 def run(ctx):
     quick = ctx.tier == "quick"
     ctx.build_go()
-    ctx.extract(["tables"])
+    ctx.extract(["tables", "parserdrv"])
     try:
         ctx.prove("Emerge.Props.C18")
         if not quick:
